@@ -3,7 +3,7 @@
 From Coq Require Extraction.
 From Coq Require Import ExtrOcamlBasic.
 From Coq Require Import List NArith ZArith.
-From BB Require Import Ebnf Chars Lexer G4Data Syntax Parser Graph.
+From BB Require Import Ebnf Chars Lexer G4Data Syntax Parser Graph Values Eval Loader.
 
 Definition bb_lex (w:list N) (K F:nat) : option (list token) := lex lex_g lex_rules w K F.
 Definition bb_recognise (toks:list nat) (K F:nat) : option bool :=
@@ -15,4 +15,7 @@ Definition bb_parse (w:list N) (K F:nat) : option (option script) :=
   | None => None
   end.
 
-Extraction "bbmodel.ml" bb_lex bb_recognise bb_parse edges nodes.
+Definition bb_loads (fs:list (str * list N)) (cwd:str) (w:list N) : outcome prog := loads lex_g lex_rules fs cwd w.
+Definition bb_load (fs:list (str * list N)) (cwd:str) (filename:str) : outcome prog := load lex_g lex_rules fs cwd filename.
+
+Extraction "bbmodel.ml" bb_lex bb_recognise bb_parse bb_loads bb_load instantiate edges nodes.
